@@ -403,7 +403,32 @@ def check_atheris(case):
                        "nontrivial": res["nontrivial"], "classes": res["stats"], "corpus": case["corpus"]}}
 
 
+def big_cases(tier, seed):
+    """Topologies of more than a mebibyte (three times the largest shipped one), read by name and as an opened file."""
+    return [{"mode": m, "nbonds": 45000 + 1000 * (int(seed) % 7), "seed": int(seed)}
+            for m in (["fileobj", "separate", "fileobj-enc"] if tier == "thorough" else ["fileobj"])], False
+
+
+def check_big(case):
+    n = case["nbonds"]
+    lines = ["; big topology", "[ moleculetype ]", "BIG 3", "", "[ atoms ]"]
+    lines += ["%d CT 1 BIG C%d %d 0.0 12.011 ; atom %d" % (k, k % 1000, k, k) for k in range(1, 2001)]
+    lines += ["", "[ bonds ]"]
+    lines += ["%d %d 1 0.153 1000.0" % (1 + k % 2000, 1 + (k * 7 + 1) % 2000) + (" ; b%d" % k if k % 50 == 0 else "")
+              for k in range(n)]
+    lines += ["", "[ pairs ]"] + ["%d %d 1" % (1 + k % 2000, 1 + (k + 3) % 2000) for k in range(500)]
+    text = "\n".join(lines) + "\n"
+    path = env.fresh_path(".itp")
+    with open(path, "w", encoding="utf-8") as f:
+        f.write(text)
+    roundtrip(path, False, "topology of %d bytes (%s)" % (len(text), case["mode"]), case["mode"])
+    return {"nontrivial": len(text) > 2 ** 20, "classes": ["size:>1MiB" if len(text) > 2 ** 20 else "size:<=1MiB",
+                                                            "mode:" + case["mode"]],
+            "sample": {"bytes": len(text), "mode": case["mode"]}}
+
+
 SUBCHECKS = [
+    Sub("big", check_big, enumerate=big_cases, shards=3, note="a topology of more than 1 MiB, also through an opened file"),
     Sub("shipped", check_shipped, enumerate=shipped_cases, note="all shipped topologies"),
     Sub("generated", check_text, strategy=lambda tier: text_case(), quick=3000, thorough=160000,
         min_share={"repeat": 0.2, "empty-comment": 0.2, "multi-comment": 0.15}),
